@@ -225,7 +225,11 @@ def worker(args):
     with warnings.catch_warnings():
         warnings.simplefilter("ignore")
         for tc in chunk:
-            r, o, c = run_type_case(tc, full_sys(tc) if callable(full_sys) else full_sys)
+            try:
+                r, o, c = run_type_case(tc, full_sys(tc) if callable(full_sys) else full_sys)
+            except Exception as ex:
+                from . import common as _c
+                r, o, c = [_c.crash_record(tc["m"], ex, a=tc["a"], b=tc["b"], backends="+".join(sorted({tc["a"][0], tc["b"][0]} - {"none"})))], [], 0
             out["records"] += r
             out["obs"] += o
             out["calls"] += c
